@@ -65,6 +65,10 @@ CONFIGS = {
     "K31": dict(lend=dict(req="0.5", isym="USD", period=10, minint=1, req_by_symbol={"BTC": "0"}), fee=("0.25", 500), liq=None,
                 init=(("USD", 100),), bp=0, qp=2),
     # interest on every loan charged in BTC: for a USD loan the conversion goes through the inverse of BTC/USD
+    # flat interest charged in USD, and a symbol (ETH) that needs no collateral: a loan of ETH before ETH/USD ever traded passes
+    # the margin rule, but its interest cannot be priced yet
+    "K37": dict(lend=dict(req="0.5", isym="USD", period=0, req_by_symbol={"ETH": "0"}), fee=None, liq=None, init=(("USD", 300),),
+                bp=0, qp=2, pairs=2),
     # three pairs with different precisions and quote symbols (ETH/BTC quoted with ONE decimal, BTC/USD with four)
     "K35": dict(lend=None, fee=("0.25", 0), liq=None, init=(("USD", 10000), ("BTC", 100), ("ETH", 100)), bp=2, qp=4, pairs=3,
                 pair_prec={2: (2, 1)}),
@@ -78,7 +82,7 @@ CONFIGS = {
 
 
 
-PURPOSE_BUILT = {"K35", "K36", "K23", "K24", "K25", "K26", "K27", "K28", "K29", "K30", "K31", "K33", "K34"}
+PURPOSE_BUILT = {"K35", "K36", "K37", "K23", "K24", "K25", "K26", "K27", "K28", "K29", "K30", "K31", "K33", "K34"}
 
 
 def thorough_spec(quick, focus, cross=False, exclude=()):
@@ -275,6 +279,10 @@ def run_scenario(prop, sc, tier):
         res.executions += 1
         if out and out[2]:
             found.append((list(prefix), out[2]))
+            if out[2][0][1] == "public-api-raises":
+                # the state this shard starts from cannot even be observed: reported, not explored further
+                report(prop, name, cfg, found, res)
+                return res
     on_state = None
     if prop == "C10" and cfg.get("lend") and name in ("K34", "K1", "K15", "K30"):
         def on_state(h):
